@@ -81,7 +81,9 @@ func printerReplay(args []string) {
 	fs := flag.NewFlagSet("printer-replay", flag.ExitOnError)
 	prop := fs.String("prop", "ALL", "")
 	hook := fs.String("hook", "none", "error hook installed for the whole run")
+	slice := fs.String("slice", "", "the slice of the specification the cases come from")
 	fs.Parse(args)
+	currentSlice = *slice
 	installHook(*hook)
 	rep := lib.NewReport(*prop, "printer-replay")
 	defer installPoolMonitor(rep)()
@@ -356,6 +358,21 @@ func secretDict(which int) lib.Dict {
 	}
 }
 
+// redactableOperandsOK: every pre-redacted operand (at any depth, also inside scripts and panic payloads) is a
+// well-formed, line-safe redactable under the context's dictionary.
+func redactableOperandsOK(c *lib.Ctx, ts []*lib.Term) bool {
+	ok := true
+	walkTerms(ts, func(t *lib.Term) {
+		if t.K == "rstring" || t.K == "rbytes" {
+			b := c.Subst(t.B)
+			if !lib.WellFormed(b) || !lib.LineSafe(b) {
+				ok = false
+			}
+		}
+	})
+	return ok
+}
+
 // judgePrinter: the properties' own predicates on real results of one case.
 func judgePrinter(rep *lib.Report, prop string, c *lib.Ctx, ln *printerLine, res *realResult, raw []byte) {
 	is := func(p string) bool { return prop == p || prop == "ALL" }
@@ -371,6 +388,12 @@ func judgePrinter(rep *lib.Report, prop string, c *lib.Ctx, ln *printerLine, res
 		// the same case with hot payloads: markers, line feeds, partial UTF-8 in every payload
 		for k := 0; k < 3; k++ {
 			hc := lib.NewCtx(hotDict(k + int(lib.Seed())))
+			if !redactableOperandsOK(hc, ln.C.Ts) {
+				// a RedactableString / RedactableBytes operand whose content is made of payload tokens would be
+				// ill-formed under this dictionary: that breaks the operand's own precondition, not the library
+				hc.Release()
+				continue
+			}
 			hr := runCase(hc, ln.C)
 			hc.Release()
 			rep.AddEval(1)
@@ -442,6 +465,9 @@ func judgePrinter(rep *lib.Report, prop string, c *lib.Ctx, ln *printerLine, res
 }
 
 var currentHook = "none"
+
+// currentSlice: the slice of the specification the replayed cases come from ("" when unknown, e.g. a replay file)
+var currentSlice = ""
 
 func hasScripts(ts []*lib.Term) bool {
 	for _, t := range ts {
